@@ -22,7 +22,7 @@
 (* higher one); FALSE is the deviation (last report wins).                 *)
 (***************************************************************************)
 EXTENDS Naturals, Sequences, FiniteSets, TLC, Json
-CONSTANTS N, RF, MaxRep, KeepMax
+CONSTANTS N, RF, MaxRep, KeepMax, Admins
 
 Quorum == (RF \div 2) + 1
 Vers == 1..N
@@ -38,8 +38,13 @@ VARIABLES target,      \* target[v] : final confirmation count of version v
           wBefore,     \* watermark just before the last crash (for RestartNoRegress)
           lastPersisted,  \* ghost: watermark in the state file of the last completed persistence round
           nrep, h,
-          stale        \* ghost: some report carried a lower count than an earlier one for a version above the watermark
-vars == <<target, hi, mem, W, cur, prev, temp, ppc, up, wBefore, lastPersisted, nrep, h, stale>>
+          stale,       \* ghost: some report carried a lower count than an earlier one for a version above the watermark
+          forced,      \* ghost: versions an administrator moved the watermark over (admin_force_watermark, admin_skip_event)
+          adminRound,  \* an admin operation advanced the watermark and its forced persistence round is not complete
+          wPre,        \* watermark before that admin operation
+          dropped      \* ghost: admin_skip_event removed the count of a version that is not the next one
+vars == <<target, hi, mem, W, cur, prev, temp, ppc, up, wBefore, lastPersisted, nrep, h, stale, forced, adminRound, wPre, dropped>>
+AdminVars == <<forced, adminRound, wPre, dropped>>
 
 Max(a, b) == IF a >= b THEN a ELSE b
 \* longest prefix of versions whose count f[v] reaches the quorum
@@ -51,6 +56,7 @@ Init ==
     /\ hi = [v \in Vers |-> 0] /\ mem = [v \in Vers |-> 0] /\ W = 0
     /\ cur = None /\ prev = None /\ temp = None /\ ppc = 0 /\ up = TRUE /\ wBefore = 0
     /\ nrep = 0 /\ h = << >> /\ stale = FALSE /\ lastPersisted = 0
+    /\ forced = {} /\ adminRound = FALSE /\ wPre = 0 /\ dropped = FALSE
 
 \* update_confirmation(v, c) on state (m, w): the new (m, w)
 Update(m, w, v, c) ==
@@ -60,13 +66,13 @@ Update(m, w, v, c) ==
          IN [mem |-> [x \in Vers |-> IF x <= w1 THEN 0 ELSE m1[x]], w |-> w1]
 
 Report(v, c) ==
-    /\ up /\ ppc = 0 /\ nrep < MaxRep /\ c <= target[v]
+    /\ up /\ ppc = 0 /\ ~adminRound /\ nrep < MaxRep /\ c <= target[v]
     /\ hi' = [hi EXCEPT ![v] = Max(@, c)]
     /\ LET r == Update(mem, W, v, c) IN mem' = r.mem /\ W' = r.w
     /\ nrep' = nrep + 1
     /\ h' = Append(h, [op |-> "report", v |-> v, c |-> c, w |-> W'])
     /\ stale' = (stale \/ (v > W /\ c < hi[v]))
-    /\ UNCHANGED <<target, cur, prev, temp, ppc, up, wBefore, lastPersisted>>
+    /\ UNCHANGED <<target, cur, prev, temp, ppc, up, wBefore, lastPersisted>> /\ UNCHANGED AdminVars
 
 Snap == [w |-> W, mem |-> mem, some |-> TRUE]
 PersistStep ==
@@ -77,14 +83,16 @@ PersistStep ==
          [] ppc = 3 -> cur' = temp /\ temp' = None /\ UNCHANGED prev
     /\ ppc' = (ppc + 1) % 4
     /\ lastPersisted' = IF ppc = 3 THEN temp.w ELSE lastPersisted
-    /\ h' = Append(h, [op |-> "persist", step |-> ppc + 1])
-    /\ UNCHANGED <<target, hi, mem, W, up, wBefore, nrep, stale>>
+    /\ h' = Append(h, [op |-> "persist", step |-> ppc + 1, admin |-> adminRound])
+    /\ adminRound' = (adminRound /\ ppc # 3)
+    /\ UNCHANGED <<target, hi, mem, W, up, wBefore, nrep, stale, forced, wPre, dropped>>
 
 Crash ==
-    /\ up /\ up' = FALSE /\ wBefore' = W
-    /\ mem' = [v \in Vers |-> 0] /\ W' = 0 /\ ppc' = 0
+    \* an admin operation that has not finished persisting has not returned: its advance may be lost
+    /\ up /\ up' = FALSE /\ wBefore' = (IF adminRound THEN wPre ELSE W)
+    /\ mem' = [v \in Vers |-> 0] /\ W' = 0 /\ ppc' = 0 /\ adminRound' = FALSE
     /\ h' = Append(h, [op |-> "crash", after_step |-> ppc])
-    /\ UNCHANGED <<target, hi, cur, prev, temp, nrep, stale, lastPersisted>>
+    /\ UNCHANGED <<target, hi, cur, prev, temp, nrep, stale, lastPersisted, forced, wPre, dropped>>
 
 \* re-report the on-disk counts of the versions above the loaded watermark, in order
 RECURSIVE Reinit(_, _, _)
@@ -97,16 +105,52 @@ Restart ==
        IN mem' = r.mem /\ W' = r.w
     \* lw: what the state files alone give back (a restart against a database without events)
     /\ h' = Append(h, [op |-> "restart", w |-> W', lw |-> Loaded.w])
-    /\ UNCHANGED <<target, hi, cur, prev, temp, ppc, wBefore, nrep, stale, lastPersisted>>
+    /\ UNCHANGED <<target, hi, cur, prev, temp, ppc, wBefore, nrep, stale, lastPersisted>> /\ UNCHANGED AdminVars
+
+(***************************************************************************)
+(* Administrative recovery operations (confirmation.rs admin_force_watermark, *)
+(* admin_skip_event).  Both only ever advance the watermark, and when they  *)
+(* do they persist at once (the persistence round follows before anything   *)
+(* else; a crash inside it may lose the advance).  Admins                   *)
+(* constant: whether the model takes these steps.                           *)
+(***************************************************************************)
+AdminForce(w) ==
+    /\ Admins /\ up /\ ppc = 0 /\ ~adminRound /\ nrep < MaxRep
+    /\ IF w > W
+       THEN /\ W' = w /\ mem' = [v \in Vers |-> IF v <= w THEN 0 ELSE mem[v]]
+            /\ forced' = forced \cup ((W + 1)..w) /\ adminRound' = TRUE /\ wPre' = W
+       ELSE UNCHANGED <<W, mem, forced, adminRound, wPre>>
+    /\ nrep' = nrep + 1
+    /\ h' = Append(h, [op |-> "force", to |-> w, w |-> W'])
+    /\ UNCHANGED <<target, hi, cur, prev, temp, ppc, up, wBefore, lastPersisted, stale, dropped>>
+AdminSkip(v) ==
+    /\ Admins /\ up /\ ppc = 0 /\ ~adminRound /\ nrep < MaxRep
+    /\ IF v <= W
+       THEN UNCHANGED <<W, mem, forced, adminRound, wPre, dropped>>
+       ELSE LET m1 == [mem EXCEPT ![v] = 0]
+                w1 == Lqp([x \in Vers |-> IF x <= W \/ x = v THEN Quorum ELSE m1[x]], W + 1)
+            IN IF w1 > W
+               THEN /\ W' = w1 /\ mem' = [x \in Vers |-> IF x <= w1 THEN 0 ELSE m1[x]]
+                    /\ forced' = forced \cup {v} /\ adminRound' = TRUE /\ wPre' = W /\ UNCHANGED dropped
+               ELSE /\ mem' = m1 /\ dropped' = (dropped \/ mem[v] > 0) /\ UNCHANGED <<W, forced, adminRound, wPre>>
+    /\ nrep' = nrep + 1
+    /\ h' = Append(h, [op |-> "skip", v |-> v, w |-> W'])
+    /\ UNCHANGED <<target, hi, cur, prev, temp, ppc, up, wBefore, lastPersisted, stale>>
 
 Next == (\E v \in Vers, c \in 0..RF : Report(v, c)) \/ PersistStep \/ Crash \/ Restart
+        \/ (\E w \in Vers : AdminForce(w)) \/ (\E v \in Vers : AdminSkip(v))
 Spec == Init /\ [][Next]_vars
 
 ----------------------------------------------------------------------------
 (* C08 *)
 Monotone == [][(up /\ up') => W' >= W]_vars
-Sound == W <= Lqp(hi, 1)
-Complete == (up /\ \A v \in Vers : hi[v] = target[v]) => W = Lqp(target, 1)
+\* versions an administrator moved the watermark over count as confirmed
+WithForced(f) == [v \in Vers |-> IF v \in forced THEN Quorum ELSE f[v]]
+Sound == W <= Lqp(WithForced(hi), 1)
+\* (after an administrative intervention completeness is not claimed: admin_force_watermark does not go on over
+\* later versions that already hold a quorum, and admin_skip_event of a version that is not the next one drops its
+\* count; both heal with the next report above the watermark or a restart)
+Complete == (up /\ forced = {} /\ ~dropped /\ \A v \in Vers : hi[v] = target[v]) => W = Lqp(target, 1)
 RestartNoRegress == up => W >= wBefore
 \* whatever step the persistence sequence is interrupted at, the state files still give back at
 \* least the last completely persisted watermark
@@ -114,7 +158,7 @@ PersistDurable == Loaded.w >= lastPersisted
 \* the in-memory map holds nothing at or below the watermark
 MemAboveW == \A v \in Vers : v <= W => mem[v] = 0
 
-View == <<target, hi, mem, W, cur, prev, temp, ppc, up, wBefore, lastPersisted, nrep, stale>>
+View == <<target, hi, mem, W, cur, prev, temp, ppc, up, wBefore, lastPersisted, nrep, stale, forced, adminRound, wPre, dropped>>
 Bound == nrep <= MaxRep /\ Len(h) <= MaxRep + 10
 EmitSim == (Len(h) = MaxRep + 8) => PrintT(<<"REPLAY", ToJson([steps |-> h, target |-> target, rf |-> RF, n |-> N])>>)
 SimBound == Len(h) <= MaxRep + 8
